@@ -90,7 +90,8 @@ impl Prop for C01 {
             }
         }
         for (i, f) in self.seeds.iter().enumerate() {
-            if i as u64 % of == shard && (cx.tier == Tier::Thorough || f.data.len() < 40_000) {
+            let stride = if cx.mode == "tiny" { of * 8 } else { of };
+            if i as u64 % stride == shard && (cx.tier == Tier::Thorough || f.data.len() < 40_000) {
                 cx.case_seed = 0xFFFE_0000 + i as u64;
                 cx.evals += 1;
                 cx.class("clean-seed");
